@@ -66,6 +66,14 @@ Theorem C10_active_set_nonneg : forall (support : nat -> list R -> list R) (x : 
 Proof. exact (fun support x n H => match H with or_introl Hx => active_set_nn support x n Hx | or_intror Hn => active_set_ge support x n Hn end). Qed.
 Print Assumptions C10_active_set_nonneg.
 
+(* active_set_nnls transcribed statement by statement (passive-set solves = ANY function `solve`, possibly failing): whenever it returns,
+   the result is entrywise >= 0 - from a non-negative start, or after at least one iteration from any start *)
+Theorem C10_active_set_nnls_nonneg : forall (solve : list (list R) -> list R -> option (list R)) (Utm : list R) (UtU : list (list R)) (tol : R)
+         (x0 : list R) (n_iter_max : nat) (out : list R),
+  active_set_nnls Rops solve Utm UtU tol x0 n_iter_max = Some out -> vnn x0 \/ (0 < n_iter_max)%nat -> vnn out.
+Proof. exact active_set_nnls_nonneg. Qed.
+Print Assumptions C10_active_set_nnls_nonneg.
+
 (* ---- initialisations *)
 Theorem C10_initialize_cp_feasible : forall (nrm : list R -> R), (forall v, 0 <= nrm v) ->
   forall (Rk : nat) (raw : list (list (list R))) (nm : bool),
